@@ -684,7 +684,11 @@ impl Conn {
                 g.build_with_time(retran, expire);
             }
         }
-        let need = self.cc.need_ack(epoch).or_else(|| self.rcvd(epoch).need_ack());
+        // An endpoint may put an ACK frame into any packet it sends; this one does so in every packet (packet `i`
+        // of the peer has just been received), as a mostly-receiving endpoint does.  The peer acknowledges only
+        // the first quarter of our packets, so the longer histories hold hundreds of unacknowledged ACK-carrying
+        // packets when the probe arrives -- state that the ACK handlers must not turn into per-number work.
+        let need = self.cc.need_ack(epoch).or_else(|| self.rcvd(epoch).need_ack()).or(Some((i, tokio::time::Instant::now())));
         let mut acked = None;
         if let Some((largest, t)) = need
             && self.rcvd(epoch).gen_ack_frame_util(pn, largest, t, 1100).is_ok()
